@@ -61,6 +61,14 @@ def slots_template(eng):
     return c13.mk_struct(eng, "DiversitySlots", {"ip": VEnum(OPTION, bv(0, 8), {0: (), 1: (uni,)}), "region": VEnum(OPTION, bv(0, 8), {0: (), 1: (region,)})})
 
 
+def empty_slots_map(eng):
+    """a DhtCoreEngine.diversity_slots map in which no peer holds anything"""
+    from values import VMap
+
+    ks = z3.BitVecSort(256)
+    return VMap(ks, z3.K(ks, z3.BoolVal(False)), vmap(slots_template(eng), lambda l: z3.K(ks, l)), bv(0, 64), None)
+
+
 def tracks_slots(eng):
     return "diversity_slots" in [f for f, _ in eng.struct_adt("DhtCoreEngine").fields]
 
